@@ -186,6 +186,15 @@ def run_recheck(case):
             # the payload root itself vanished (single file removed): give the parent
             path = os.path.dirname(root)
             rec["path_mode"] = "parent"
+        if case.get("noise") and os.path.isdir(root):      # files the torrent does not describe
+            write_file(os.path.join(root, "zz-not-in-torrent.txt"), b"noise")
+            write_file(os.path.join(root, "zz-extra-dir", "more.bin"), b"\x00" * 100)
+        if case.get("via_symlink") and os.path.exists(path):   # the content path is a symbolic link
+            alias_dir = os.path.join(sbx, "links")
+            os.makedirs(alias_dir, exist_ok=True)
+            alias = os.path.join(alias_dir, os.path.basename(path))
+            os.symlink(path, alias)
+            path = alias
         cwd0 = os.getcwd()
         if case.get("rel_paths"):           # relative spellings of both paths, from the sandbox
             os.chdir(sbx)
